@@ -1480,10 +1480,12 @@ public:
             ctx_.enqueue(this, strptr_.flip(bkt[i], bktsize), depth_);
         }
 
-        this->substep_notify_done(); // release anonymous subjob handle
-
+        // free the bucket array before releasing the anonymous subjob handle:
+        // substep_notify_done() may run substep_all_done(), which deletes this
         if (!strptr_.with_lcp)
             bkt_[0].destroy();
+
+        this->substep_notify_done(); // release anonymous subjob handle
     }
 
     /*------------------------------------------------------------------------*/
